@@ -1,7 +1,7 @@
 use crate::block::{Block, BlockIter};
 use crate::blockhandle::BlockHandle;
 use crate::cache;
-use crate::error::Result;
+use crate::error::{err, Result, StatusCode};
 use crate::filter_block::FilterBlockReader;
 use crate::options::Options;
 use crate::table_block;
@@ -17,9 +17,21 @@ use integer_encoding::FixedIntWriter;
 
 /// Reads the table footer.
 fn read_footer(f: &dyn RandomAccess, size: usize) -> Result<Footer> {
+    if size < table_builder::FULL_FOOTER_LENGTH {
+        return err(
+            StatusCode::Corruption,
+            "file is too short to be an sstable",
+        );
+    }
     let mut buf = vec![0; table_builder::FULL_FOOTER_LENGTH];
     f.read_at(size - table_builder::FULL_FOOTER_LENGTH, &mut buf)?;
-    Ok(Footer::decode(&buf))
+    match Footer::try_decode(&buf) {
+        Some(footer) => Ok(footer),
+        None => err(
+            StatusCode::Corruption,
+            "not an sstable (bad magic number or block handles in footer)",
+        ),
+    }
 }
 
 /// A block access observed by `Table::read_block` (verification hook): cache id, block offset
